@@ -390,8 +390,17 @@ def _w_args():
 
 def _w_facts(wf):
     s = S(wf)
-    return dict(samples=tuple(np.round(s, 12).tolist()), duration=wf.duration, integral=round(float(wf.integral), 12),
-                first=round(float(wf.first_value), 12), last=round(float(wf.last_value), 12))
+    f = dict(samples=tuple(np.round(s, 12).tolist()), duration=wf.duration, integral=round(float(wf.integral), 12),
+             first=round(float(wf.first_value), 12), last=round(float(wf.last_value), 12))
+    # what is DERIVED from the object now (re-reads its defining parameters): other duration, scaling, negation
+    try:
+        f["change_duration"] = tuple(np.round(S(wf.change_duration(wf.duration + 4)), 9).tolist())
+    except NotImplementedError:
+        f["change_duration"] = None
+    f["scaled"] = tuple(np.round(S(wf * 2.0), 9).tolist())
+    f["negated"] = tuple(np.round(S(-wf), 9).tolist())
+    f["repr"] = repr(wf)[:200]
+    return f
 
 
 def check_whist(obj, h):
